@@ -79,6 +79,7 @@ type Rec struct {
 	start      time.Time
 	root       string
 	incomplete string
+	lastReplay string
 }
 
 // Root returns the /verif directory (env VERIF_ROOT, default /verif).
@@ -270,6 +271,23 @@ func (r *Rec) Incomplete(why string) {
 	r.mu.Unlock()
 }
 
+// TakeIncomplete returns and clears the inconclusive note (fuzz targets
+// handle it per execution).
+func (r *Rec) TakeIncomplete() string {
+	r.mu.Lock()
+	defer r.mu.Unlock()
+	w := r.incomplete
+	r.incomplete = ""
+	return w
+}
+
+// LastReplay returns the path of the replay file written last.
+func (r *Rec) LastReplay() string {
+	r.mu.Lock()
+	defer r.mu.Unlock()
+	return r.lastReplay
+}
+
 // Report handles a failure: a known finding is counted and (false) returned;
 // otherwise a replay file is written, the violation recorded and true
 // returned. c is the JSON-serialisable case.
@@ -286,6 +304,7 @@ func (r *Rec) Report(c any, f *Failure) bool {
 	cb, _ := json.Marshal(c)
 	path := filepath.Join(dir, fmt.Sprintf("%016x.json", Hash64(cb)))
 	os.WriteFile(path, blob, 0o644)
+	r.lastReplay = path
 	for _, v := range r.viol {
 		if v.Replay == path {
 			return true
